@@ -123,6 +123,9 @@ class History:
             res, out = None, ("raised", type(e).__name__)
         self.ctx.count("api_calls")
         self.ctx.count("api:" + label.split("(")[0])
+        # purity is also checked around the call itself, whatever it is (a property, __str__, a helper the method-level
+        # wrappers of vlib.monitor do not know)
+        self.mon.check_all(label.split("(")[0])
         if journal:
             self.journal.append((label, thunk, out))
         return res
@@ -178,7 +181,8 @@ def run_history(ctx, rng, mon, n_calls):
     other = []
     from pddl_plus_parser.exporters import DomainExporter, ProblemExporter, TrajectoryExporter
     kinds = ["new_op", "new_op", "is_applicable", "apply", "apply", "apply_flag", "reapply", "reapply", "serialize", "copy", "two_ops",
-             "print", "effects", "export_domain", "export_problem", "trajectory", "parse_other", "new_state", "replay", "replay"]
+             "print", "effects", "export_domain", "export_problem", "trajectory", "parse_other", "new_state", "replay", "replay",
+             "read_only_accessor"]
     for step in range(n_calls):
         k = rng.choice(kinds)
         if k == "new_op" or not ops:
@@ -224,6 +228,18 @@ def run_history(ctx, rng, mon, n_calls):
             if res is not None and len(states) < 14:
                 states.append(res)
                 mon.register(res, "State#returned")
+        elif k == "read_only_accessor":
+            which = rng.choice(["typed_action_call", "str(operator)", "str(action)", "hash(precondition)", "precondition == itself"])
+            if which == "typed_action_call":
+                h.call(f"typed_action_call({an} {' '.join(call)})", lambda op=op: op.typed_action_call)
+            elif which == "str(operator)":
+                h.call(f"str(operator {an} {' '.join(call)})", lambda op=op: str(op))
+            elif which == "str(action)":
+                h.call(f"str(action {an})", lambda a=dom.actions[an]: str(a))
+            elif which == "hash(precondition)":
+                h.call(f"hash(precondition {an})", lambda a=dom.actions[an]: hash(a.preconditions) is not None, journal=False)
+            else:
+                h.call(f"precondition == itself({an})", lambda a=dom.actions[an]: a.preconditions == a.preconditions)
         elif k == "serialize":
             h.call(f"serialize(s{si})", lambda s=s: s.serialize())
             h.call(f"typed_serialize(s{si})", lambda s=s: s.typed_serialize(), journal=False)
